@@ -216,4 +216,87 @@ theorem qstrgets_eof (buf pre rest : Bytes) (size : Nat) :
   rw [rd_mid]
   simp
 
+/-! ### overlapping copies inside one block -/
+
+theorem rdN_general (buf : Bytes) (s n : Nat) (h : s + n ≤ buf.length) :
+    rdN buf s n = .ok ((buf.drop s).take n) := by
+  apply rdN_at buf (buf.take s) ((buf.drop s).take n) ((buf.drop s).drop n) s n
+  · rw [List.append_assoc, List.take_append_drop, List.take_append_drop]
+  · simp [List.length_take]; omega
+  · simp [List.length_take]; omega
+
+theorem wrN_general (buf data : Bytes) (d : Nat) (h : d + data.length ≤ buf.length) :
+    wrN buf d data = .ok (buf.take d ++ data ++ buf.drop (d + data.length)) := by
+  have := wrN_at buf (buf.take d) ((buf.drop d).take data.length) ((buf.drop d).drop data.length)
+    data d (by rw [List.append_assoc, List.take_append_drop, List.take_append_drop])
+    (by simp [List.length_take]; omega) (by simp [List.length_take]; omega)
+  rw [this, List.drop_drop]
+
+/-- the exact block after `qstrncpy(buf + d, size, buf + s, nbytes)`, for any relative position
+    of source and destination: in front of `d` nothing changes, then come the `n = min nbytes
+    (size - 1)` bytes the ORIGINAL block held at `s`, then the terminator, then the original
+    bytes from `d + n + 1` on -/
+theorem qstrncpyOv_spec (buf : Bytes) (d s size nbytes : Nat) (h1 : 1 ≤ size)
+    (h2 : d + size ≤ buf.length) (h3 : s + min nbytes (size - 1) ≤ buf.length) :
+    qstrncpyOv buf d s size nbytes
+      = .ok (buf.take d ++ (buf.drop s).take (min nbytes (size - 1))
+              ++ 0 :: buf.drop (d + min nbytes (size - 1) + 1)) := by
+  unfold qstrncpyOv memmove
+  have hs : ¬ size = 0 := by omega
+  simp only [hs, if_false]
+  have hn : (if size ≤ nbytes then size - 1 else nbytes) = min nbytes (size - 1) := by
+    split <;> omega
+  rw [hn]
+  generalize hnn : min nbytes (size - 1) = n at *
+  rw [rdN_general buf s n h3]
+  simp only [bind_ok]
+  have hl : ((buf.drop s).take n).length = n := by simp [List.length_take]; omega
+  rw [wrN_general buf _ d (by rw [hl]; omega), hl]
+  simp only [bind_ok]
+  have hlt : d + n < buf.length := by omega
+  rw [List.drop_eq_getElem_cons hlt]
+  rw [wr_mid' (buf.take d ++ (buf.drop s).take n) _ _ 0 _ (by simp [List.length_take, hl]; omega)]
+
+theorem qstrcpyOv_spec (pre str post : Bytes) (d size : Nat) (hs : NulFree str) (h1 : 1 ≤ size)
+    (h2 : d + size ≤ (pre ++ str ++ 0 :: post).length) :
+    qstrcpyOv (pre ++ str ++ 0 :: post) d pre.length size
+      = .ok ((pre ++ str ++ 0 :: post).take d ++ str.take (size - 1)
+              ++ 0 :: (pre ++ str ++ 0 :: post).drop (d + min str.length (size - 1) + 1)) := by
+  unfold qstrcpyOv
+  have hz : ¬ size = 0 := by omega
+  simp only [hz, if_false]
+  rw [nulPos_spec pre str post hs]
+  simp only [bind_ok]
+  have hsub : pre.length + str.length - pre.length = str.length := by omega
+  rw [hsub, qstrncpyOv_spec _ d pre.length size str.length h1 h2 (by simp; omega)]
+  have : ((pre ++ str ++ 0 :: post).drop pre.length).take (min str.length (size - 1))
+      = str.take (size - 1) := by
+    rw [List.append_assoc, List.drop_left, List.take_append_of_le_length (by omega),
+      Nat.min_comm, ← List.take_take]
+    simp
+  rw [this]
+
+/-- reading the block `take d ++ data ++ 0 :: drop (d + |data| + 1)`: same length, `data` and a
+    terminator at `d`, every other index unchanged -/
+theorem patched_shape (buf data : Bytes) (d : Nat) (h : d + data.length < buf.length) :
+    let b := buf.take d ++ data ++ 0 :: buf.drop (d + data.length + 1)
+    b.length = buf.length ∧ (b.drop d).take (data.length + 1) = data ++ [0] ∧
+    ∀ i, (i < d ∨ d + data.length + 1 ≤ i) → b[i]? = buf[i]? := by
+  have hd : (buf.take d).length = d := by simp [List.length_take]; omega
+  refine ⟨by simp [List.length_take]; omega, ?_, ?_⟩
+  · have e : buf.take d ++ data ++ 0 :: buf.drop (d + data.length + 1)
+        = buf.take d ++ ((data ++ [0]) ++ buf.drop (d + data.length + 1)) := by simp
+    rw [e]
+    conv => lhs; arg 2; arg 1; rw [← hd]
+    rw [List.drop_left, List.take_append_of_le_length (by simp)]
+    exact List.take_of_length_le (by simp)
+  · intro i hi
+    rcases hi with hi | hi
+    · rw [List.append_assoc, List.getElem?_append_left (by omega), List.getElem?_take_of_lt hi]
+    · have e : buf.take d ++ data ++ 0 :: buf.drop (d + data.length + 1)
+          = (buf.take d ++ data ++ [0]) ++ buf.drop (d + data.length + 1) := by simp
+      have hl : (buf.take d ++ data ++ [0]).length = d + data.length + 1 := by simp [hd]; omega
+      rw [e, List.getElem?_append_right (by omega), hl, List.getElem?_drop]
+      congr 1; omega
+
 end Qlibc.Str
